@@ -151,7 +151,7 @@ def finite(rows):
 MAX_CRASHES = 4
 
 
-def run_impl(ctx, exe, cases, timeout=900, env=None, chunk=240):
+def run_impl(ctx, exe, cases, timeout=900, env=None, chunk=240, probes=None):
     """cases: list of command strings WITHOUT the id (first word = command); the id is inserted.
     Returns list aligned with cases: token list after 'R <id>', {'crash': text}, or {'skipped': True}.
     The commands are fed in chunks to fresh processes.  A call that hangs trips the in-process watchdog
@@ -181,6 +181,8 @@ def run_impl(ctx, exe, cases, timeout=900, env=None, chunk=240):
                 results[cur] = w[2:]
             elif len(w) >= 2 and w[0] == "T" and cur is not None and cur < end:
                 results[cur] = {"crash": "hang: the in-process watchdog fired"}
+            elif len(w) >= 2 and w[0] == "P" and cur is not None and cur < end and probes is not None:
+                probes[cur] = dict(t.split("=", 1) for t in w[2:] if "=" in t)
         if r.rc == 0 and not r.timed_out:
             start = end
             continue
@@ -315,8 +317,22 @@ def gen_exact_case(rng, kind=None, base=None):
         else:
             tr["c"] = rng.choice([Fraction(2), Fraction(1, 2), Fraction(3), Fraction(1, 4), Fraction(5, 4), Fraction(1024),
                                   Fraction(1, 1024), Fraction(-1), Fraction(-3, 2)])
+    # tie-free symmetric distance table for the Isomap body (no two pairs at the same distance: the k-NN graph
+    # is then determined, ties are the freedom the k-NN specification leaves).  Half of the tables take their
+    # entries from [m, 2m] (any such table is a metric), the others from a wide range (long geodesic paths).
+    npairs = n * (n - 1) // 2
+    if rng.random() < 0.5:
+        vals = rng.sample(range(64, 129), npairs) if npairs <= 65 else rng.sample(range(256, 513), npairs)
+    else:
+        vals = rng.sample(range(1, 8 * n * n + 2), npairs)
+    Ti = [[Fraction(0)] * n for _ in range(n)]
+    it = iter(vals)
+    for i in range(n):
+        for j in range(i + 1, n):
+            Ti[i][j] = Ti[j][i] = bs * next(it)
+    kiso = rng.randint(3, max(3, n - 1))
     return {"stream": "exact", "n": n, "D": D, "d": d, "data": dk, "X": X, "P": P, "T": T, "C": C, "tr": tr,
-            "base_exp": bexp}
+            "base_exp": bexp, "Tiso": Ti, "kiso": kiso}
 
 
 def case_C(case):
@@ -397,7 +413,7 @@ def eval_exact(ctx, exe, mexe, cases, stats):
     lines = []
     for c, (Xp, Pp, Tp, Cp) in zip(cases, images):
         lines += exact_impl_lines(c, Xp, Pp, Tp, Cp)
-    impl = run_impl(ctx, exe, lines)
+    impl = run_impl(ctx, exe, lines, env={"OMP_NUM_THREADS": "1"})
     evals = 0
     model_lines, model_map = [], []       # (case index, what, expected table)
     rel_lines, rel_map = [], []
@@ -529,6 +545,151 @@ def eval_exact(ctx, exe, mexe, cases, stats):
     return evals
 
 
+# --------------------------------------------------------------------------------------------- method bodies
+METHS = ["isomap", "mds", "kpca", "pca"]
+
+
+def eval_methods(ctx, xexe, mexe, cases, stats):
+    """exact stream through the embed() bodies of Isomap / MDS / kernel PCA / PCA (harness/c12_meth.cpp records
+    the geodesic table and the matrix handed to eigendecomposition_via): recorded matrices must EQUAL the
+    extracted model's, and the property's relations must hold between the recordings for a case and its image"""
+    cases = [c for c in cases if "Tiso" in c]
+    if not cases:
+        return 0
+    lines = []
+    images = []
+    for c in cases:
+        Xp, Pp, Tp, Cp = apply_tr(c)
+        n, D, d, tr = c["n"], c["D"], c["d"], c["tr"]
+        Ti = c["Tiso"]
+        if tr["kind"] == "perm":
+            ql = tr["ql"]
+            Tip = [[Ti[ql[i]][ql[j]] for j in range(n)] for i in range(n)]
+        elif tr["kind"] == "scale":
+            Tip = [[abs(tr["c"]) * v for v in row] for row in Ti]
+        else:
+            Tip = Ti
+        images.append((Xp, Tp, Tip))
+        di = min(d, max(1, n - 1))
+        lines += ["METH isomap %d %d %d %s" % (n, c["kiso"], di, flat(Ti)),
+                  "METH isomap %d %d %d %s" % (n, c["kiso"], di, flat(Tip)),
+                  "METH mds %d 0 %d %s" % (n, di, flat(c["T"])), "METH mds %d 0 %d %s" % (n, di, flat(Tp)),
+                  "METH kpca %d %d %d %s" % (n, D, di, flat(c["X"])), "METH kpca %d %d %d %s" % (n, D, di, flat(Xp)),
+                  "METH pca %d %d %d %s" % (n, D, d, flat(c["X"])), "METH pca %d %d %d %s" % (n, D, d, flat(Xp))]
+    impl = run_impl(ctx, xexe, lines, env={"OMP_NUM_THREADS": "1"})
+    evals = 0
+    mlines, mmap = [], []
+    rlines, rmap = [], []
+    for ci, (c, (Xp, Tp, Tip)) in enumerate(zip(cases, images)):
+        res = impl[8 * ci:8 * ci + 8]
+        jc = case_to_json(c)
+        bad = [r for r in res if crashed(r)]
+        if bad:
+            ctx.violation(jc, "the embed() body aborts / hangs on this input: " + str(bad[0]["crash"])[:500])
+            continue
+        if any(skipped(r) for r in res):
+            stats["not_run_after_repeated_aborts"] = stats.get("not_run_after_repeated_aborts", 0) + 1
+            continue
+        tabs = [parse_impl_tables(r[1:]) if r and r[0] == "OK" else None for r in res]
+        if any(t is None or "st" not in t for t in tabs):
+            ctx.violation(jc, "an embed() body returned a malformed record: " + " ".join(map(str, res[0][:6])))
+            continue
+        n, D, tr = c["n"], c["D"], c["tr"]
+        kind = tr["kind"]
+        for mi, m in enumerate(METHS):
+            a, b = tabs[2 * mi], tabs[2 * mi + 1]
+            evals += 1
+            key = "meth/" + m
+            sa, sb = a["st"][0][0], b["st"][0][0]
+            if sa != sb or (("H" in a) != ("H" in b)):
+                ctx.violation(jc, "%s: the call %s on the input and %s on its %s image" % (
+                    m, "throws" if sa else "returns", "throws" if sb else "returns", kind))
+                continue
+            if "H" not in a:
+                stats[key + "/threw-before-solver"] = stats.get(key + "/threw-before-solver", 0) + 1
+                continue
+            if m == "isomap":
+                if "geo" not in a or "geo" not in b:
+                    ctx.violation(jc, "isomap: no geodesic table recorded although the solver was reached")
+                    continue
+                big = Fraction(2) ** 500
+                if not (finite(a["geo"]) and finite(b["geo"])) or any(
+                        v > big for t in (a["geo"], b["geo"]) for row in t for v in row):
+                    stats[key + "/graph-not-connected"] = stats.get(key + "/graph-not-connected", 0) + 1
+                    continue
+            if not (finite(a["H"]) and finite(b["H"])):
+                ctx.violation(jc, "%s: the matrix handed to the eigen-solver has non-finite entries on finite dyadic "
+                                  "input" % m)
+                continue
+            hn = D if m == "pca" else n
+            if not all(len(t["H"]) == hn and all(len(r) == hn for r in t["H"]) for t in (a, b)):
+                ctx.violation(jc, "%s: the matrix handed to the eigen-solver has the wrong shape" % m)
+                continue
+            stats[key] = stats.get(key, 0) + 1
+            # ---- model correspondence
+            if m == "isomap":
+                ml = ["ISO %d %s" % (n, qtable(a["geo"])), "ISO %d %s" % (n, qtable(b["geo"]))]
+            elif m == "mds":
+                ml = ["MDS %d %s" % (n, qtable(c["T"])), "MDS %d %s" % (n, qtable(Tp))]
+            elif m == "kpca":
+                ml = ["KPCAX %d %d %s" % (n, D, qtable(c["X"])), "KPCAX %d %d %s" % (n, D, qtable(Xp))]
+            else:
+                ml = ["COV %d %d %s" % (n, D, qtable(c["X"])), "COV %d %d %s" % (n, D, qtable(Xp))]
+            mlines += ml
+            mmap.append((ci, m, a["H"], b["H"]))
+            # ---- the property's relations between the two recordings
+            H, Hp = qtable(a["H"]), qtable(b["H"])
+            rl = []
+            if kind == "perm":
+                ql = qperm(tr["ql"])
+                if m == "pca":
+                    rl = [("REQ %d %d %s %s" % (D, D, H, Hp), "covariance handed to the solver unchanged")]
+                else:
+                    rl = [("RPT %d %s %s %s" % (n, ql, H, Hp), "matrix handed to the solver permuted")]
+                    if m == "isomap":
+                        rl.append(("RPT %d %s %s %s" % (n, ql, qtable(a["geo"]), qtable(b["geo"])),
+                                   "geodesic table permuted"))
+            elif kind == "scale":
+                cc = tr["c"]
+                rl = [("RSC %d %d %s %s %s" % (hn, hn, qtok(cc * cc), H, Hp), "matrix handed to the solver scaled by c^2")]
+                if m == "isomap":
+                    rl.append(("RSC %d %d %s %s %s" % (n, n, qtok(abs(cc)), qtable(a["geo"]), qtable(b["geo"])),
+                               "geodesic table scaled by |c|"))
+            elif kind == "rot":
+                if m == "pca":
+                    rl = [("RCJ %d %s %s %s" % (D, qtable(tr["R"]), H, Hp), "covariance handed to the solver = R C R^T")]
+                else:
+                    rl = [("REQ %d %d %s %s" % (n, n, H, Hp), "matrix handed to the solver unchanged by x -> R x")]
+            else:
+                rl = [("REQ %d %d %s %s" % (hn, hn, H, Hp), "matrix handed to the solver unchanged by a translation")]
+            for line, what in rl:
+                rlines.append(line)
+                rmap.append((ci, m, what))
+    mout = run_model(ctx, mexe, mlines + rlines)
+    for k, (ci, m, Ha, Hb) in enumerate(mmap):
+        for o, Himpl, which in ((mout[2 * k], Ha, "input"), (mout[2 * k + 1], Hb, "image")):
+            Hm = parse_model_table(o)
+            if Hm is None:
+                raise vlib.BuildError("model driver returned a malformed table")
+            evals += 1
+            if Hm != Himpl:
+                c = cases[ci]
+                ctx.mismatch(case_to_json(c), "%s embed(): the matrix handed to eigendecomposition_via on the %s differs "
+                             "from the extracted model (data at scale 2^%d, transformation %s)"
+                             % (m, which, c.get("base_exp", 0), c["tr"]["kind"]))
+                stats["model_mismatch"] = stats.get("model_mismatch", 0) + 1
+                break
+    for (ci, m, what), o in zip(rmap, mout[len(mlines):]):
+        evals += 1
+        if o != ["B", "1"]:
+            c = cases[ci]
+            ctx.violation(case_to_json(c), "exact stream through the embed() body of %s, %s transformation: relation `%s` "
+                          "fails between the recordings of the two runs (dyadic data at scale 2^%d)"
+                          % (m, c["tr"]["kind"], what, c.get("base_exp", 0)))
+            stats["exact_violations"] = stats.get("exact_violations", 0) + 1
+    return evals
+
+
 # --------------------------------------------------------------------------------------------- assembly stream
 def frac_solve(A, b):
     """exact Gaussian elimination over Fractions; None when singular"""
@@ -614,7 +775,7 @@ def eval_assembly(ctx, exe, mexe, cases, stats):
                   "DMX %d %s %s" % (N, float(c["width"]).hex(), tflat(Tp)),
                   "HLLEW %d %d %d 1 %s %s" % (N, D, k, flat(c["X"]), nbflat(c["nb"])),
                   "HLLEW %d %d %d 1 %s %s" % (N, D, k, flat(Xp), nbflat(nbp))]
-    impl = run_impl(ctx, exe, lines)
+    impl = run_impl(ctx, exe, lines, env={"OMP_NUM_THREADS": "1"})
     evals = 0
     mlines, mmap = [], []
     for ci, c in enumerate(cases):
@@ -1009,7 +1170,9 @@ def meta_verdict(c, res3, stats):
     cond = None
     if p[0] == "ok" and len(p[1]) == N:
         cond = dist_err(Dm, dist_matrix(p[1]))
-    if cond is None or cond > tol / 20:
+    # (the probe is ONE realisation of the noise: a defect must also exceed it by two orders of magnitude; a
+    # dm case with probe 4.6e-8 and rotation error 1.8e-6 was seen on the unchanged tree)
+    if cond is None or cond > tol / 20 or err < 100 * cond:
         stats["ill_conditioned_skipped"] = stats.get("ill_conditioned_skipped", 0) + 1
         return None
     return ("%s embedding is not %s under a %s of the input: embedding distance matrices differ by %.3g "
@@ -1019,6 +1182,27 @@ def meta_verdict(c, res3, stats):
                 {"perm": "permutation", "rot": "rotation/reflection", "trans": "translation",
                  "scale": "scaling", "combo": "rigid motion followed by a permutation"}[kind],
                 err, tol, noise_level(c), cond))
+
+
+def probe_verdict(params, pr):
+    """the state probes the embed driver prints after a call (P line) against what the allow-list of
+    Equiv_Spec.v argues: a deterministic method draws nothing from std::rand (VP-tree pivots excepted: their
+    choice must not show in the result, which the bitwise history comparison checks) and never goes through
+    random_shuffle.  -> None or the text of a violation"""
+    if not pr or params.get("m") not in METHODS or params.get("em", "dense") != "dense":
+        return None
+    try:
+        draws, shuf = int(pr.get("rand", "0")), int(pr.get("shuf", "0"))
+    except ValueError:
+        return "the state probe of the embed driver is garbled: %s" % pr
+    if shuf != 0:
+        return ("%s (a deterministic method) went through tapkee::random_shuffle %d times: its result depends on "
+                "std::random_device / the shuffle hook" % (params["m"], shuf))
+    if draws != 0 and params.get("nm", "covertree") != "vptree":
+        return ("%s (a deterministic method, %s neighbours, dense solver) consumed %d draws of std::rand: its result "
+                "can depend on the process-wide random stream, i.e. on the calls made earlier"
+                % (params["m"], params.get("nm", "default"), draws))
+    return None
 
 
 def drop_sample(c, i):
@@ -1057,13 +1241,22 @@ def eval_meta(ctx, exe, cases, stats, hist):
     cmds = []
     for c in cases:
         cmds += meta_cmds(c)
-    res = run_impl(ctx, exe, cmds, timeout=600, env={"OMP_NUM_THREADS": "1"})
+    probes = {}
+    res = run_impl(ctx, exe, cmds, timeout=600, env={"OMP_NUM_THREADS": "1"}, probes=probes)
     evals = 0
     shrunk = 0
     for ci, c in enumerate(cases):
         key = "%s/%s" % (c["method"], c["tr"]["kind"])
         hist[key] = hist.get(key, 0) + 1
         evals += 1
+        pw = probe_verdict(c["params"], probes.get(3 * ci)) or probe_verdict(c["params"], probes.get(3 * ci + 1))
+        if pw:
+            # not yet a violation (a draw whose value never shows in the result would be harmless): the argument
+            # for history independence no longer goes through -> search phase
+            stats["probe_failures"] = stats.get("probe_failures", 0) + 1
+            ctx.mismatch(c, pw)
+        if probes.get(3 * ci):
+            stats["state_probes_checked"] = stats.get("state_probes_checked", 0) + 1
         why = meta_verdict(c, res[3 * ci:3 * ci + 3], stats)
         if why is None:
             continue
@@ -1165,23 +1358,51 @@ def eval_nbr(ctx, exe, cases, stats, hist):
 
 
 # --------------------------------------------------------------------------------------------- history stream
-RANDOMIZED = ["spe", "ra", "lmds", "lisomap", "fa"]
+RANDOMIZED = ["spe", "ra", "lmds", "lisomap", "fa", "tsne", "ms", "eig-randomized", "passthru"]
+# which allow-listed object of Equiv_Spec.v a call in a history exercises
+CONSUMES = {"spe": "rand:uniform_random+random_shuffle(hook,rng)", "ra": "rand:gaussian_random",
+            "lmds": "random_shuffle(hook,rng)", "lisomap": "random_shuffle(hook,rng)", "fa": "rand:gaussian_random",
+            "tsne": "rand:gaussian_random", "ms": "rand:manifold_sculpting.hpp", "eig-randomized": "rand:gaussian_random(solver)",
+            "passthru": "none"}
 
 
-def gen_call(rng, methods, shape=None):
+def is_compared(params):
+    """deterministic call: a deterministic method with the dense solver (explicitly or by default_eigen_method)"""
+    return params["m"] in METHODS and params.get("em", "dense") == "dense"
+
+
+def gen_call(rng, methods, shape=None, under_test=False):
     m = rng.choice(methods)
     N, D = shape or (rng.randint(10, 22), rng.choice([3, 4]))
     X = gen_float_data(rng, N, D, rng.choice(["blob", "roll"]))
     params = {"m": m, "d": rng.choice([1, 2]), "em": "dense", "nm": rng.choice(["brute", "covertree", "vptree"]),
               "k": rng.randint(5, 7)}
+    if m == "eig-randomized":
+        # a deterministic method driven by the randomized solver: consumes gaussian_random
+        params["m"] = rng.choice(["pca", "kpca", "mds", "isomap", "la"])
+        params["em"] = "randomized"
+        m = params["m"]
     if m in ("la", "lpp", "dm"):
         params["width"] = rng.choice([1.0, 5.0])
     if m in ("lmds", "lisomap"):
         params["lr"] = 0.5
-    if m == "spe":
-        params["maxit"] = 20
-    if m in RANDOMIZED:
+    if m in ("spe", "ms"):
+        params["maxit"] = 20 if m == "spe" else 5
+    if m == "tsne":
+        params["perp"] = 2.0
+        params["theta"] = rng.choice([0.0, 0.5])
+        params["d"] = 2
+        params["maxit"] = 30
+    if m not in METHODS or params["em"] != "dense":
         params["seed"] = rng.randrange(1000)
+    # the default_* method objects decide when the keyword is absent
+    if params["em"] == "dense" and rng.random() < 0.3:
+        del params["em"]
+    if rng.random() < 0.3:
+        del params["nm"]
+    # the Logging singleton: levels switched on / off before some calls (the setting persists)
+    if rng.random() < (0.15 if under_test else 0.4):
+        params["log"] = rng.choice([31, 31, 0, rng.randrange(32)])
     if rng.random() < 0.08:
         params["d"] = N + 5           # a failing call (wrong_parameter_error) in the history
     return {"params": params, "N": N, "D": D, "X": X}
@@ -1195,33 +1416,77 @@ def gen_history(rng):
     same = rng.choice(DET_METHODS) if shape and rng.random() < 0.5 else None
     for i in range(L):
         last = i == L - 1
-        pool = DET_METHODS if last or rng.random() < 0.6 else RANDOMIZED
+        pool = DET_METHODS if last or rng.random() < 0.5 else RANDOMIZED
         if same and (last or rng.random() < 0.7):
             pool = [same]
-        calls.append(gen_call(rng, pool, shape))
+        calls.append(gen_call(rng, pool, shape, under_test=last))
     return {"stream": "history", "calls": calls}
+
+
+def history_cover(c, hist):
+    """which allow-listed objects the history exercises BEFORE its last (deterministic) call"""
+    before = c["calls"][:-1]
+    tags = set()
+    for k in before:
+        pm = k["params"]
+        if "log" in pm:
+            tags.add("logger:level-change")
+        if pm["m"] in CONSUMES:
+            tags.add(CONSUMES[pm["m"]])
+        if pm.get("em") == "randomized":
+            tags.add(CONSUMES["eig-randomized"])
+        if pm.get("nm") == "vptree" and pm["m"] in METHODS and METHODS[pm["m"]][0]:
+            tags.add("rand:vptree-pivots")
+    last = c["calls"][-1]["params"]
+    if "em" not in last:
+        tags.add("default_eigen_method(read by the call under test)")
+    if "nm" not in last:
+        tags.add("default_neighbors_method(read by the call under test)")
+    if any("log" in k["params"] and k["params"]["log"] for k in before) and "log" not in last:
+        tags.add("logger:enabled-during-the-call-under-test")
+    for t in tags:
+        hist["history-cover/" + t] = hist.get("history-cover/" + t, 0) + 1
 
 
 def eval_history(ctx, exe, cases, stats, hist):
     evals = 0
     env = {"OMP_NUM_THREADS": "1"}
     for c in cases:
+        history_cover(c, hist)
         cmds = [emb_cmd(k["params"], k["N"], k["D"], k["X"]) for k in c["calls"]]
-        together = run_impl(ctx, exe, cmds, timeout=600, env=env)
+        ptog = {}
+        together = run_impl(ctx, exe, cmds, timeout=600, env=env, probes=ptog)
+        defs = {pr.get("defs") for pr in ptog.values() if pr.get("defs")}
+        if len(defs) > 1:
+            ctx.mismatch(c, "the default_* method objects changed during the history: %s" % sorted(defs))
         for i, k in enumerate(c["calls"]):
-            if k["params"]["m"] not in METHODS:
+            if not is_compared(k["params"]):
                 continue                      # randomized call: not compared
-            alone = run_impl(ctx, exe, [cmds[i]], timeout=300, env=env)[0]
+            pal = {}
+            alone = run_impl(ctx, exe, [cmds[i]], timeout=300, env=env, probes=pal)[0]
             evals += 1
             hist["history/" + k["params"]["m"]] = hist.get("history/" + k["params"]["m"], 0) + 1
             if skipped(alone) or skipped(together[i]):
                 continue
+            sub = {"stream": "history", "calls": c["calls"][:i + 1]}
             if crashed(alone) or crashed(together[i]):
-                ctx.violation({"stream": "history", "calls": c["calls"][:i + 1]},
-                              "embed aborts in a history: " + str((alone if crashed(alone) else together[i])["crash"])[:300])
+                ctx.violation(sub, "embed aborts in a history: " + str((alone if crashed(alone) else together[i])["crash"])[:300])
                 continue
+            pw = probe_verdict(k["params"], ptog.get(i)) or probe_verdict(k["params"], pal.get(0))
+            if pw:
+                ctx.mismatch(sub, "call %d of the history: %s" % (i, pw))
+                stats["probe_failures"] = stats.get("probe_failures", 0) + 1
+            if ptog.get(i):
+                stats["state_probes_checked"] = stats.get("state_probes_checked", 0) + 1
+                if int(ptog[i].get("msgs", "0") or 0) > 0:
+                    stats["history_calls_with_logging_on"] = stats.get("history_calls_with_logging_on", 0) + 1
+                if int(ptog[i].get("rand", "0") or 0) > 0:
+                    stats["history_vptree_calls_drawing_pivots"] = stats.get("history_vptree_calls_drawing_pivots", 0) + 1
+            if pal.get(0) and ptog.get(i) and pal[0].get("defs") != ptog[i].get("defs"):
+                ctx.mismatch(sub, "the default_* method objects differ between a fresh process and the history: %s vs %s"
+                             % (pal[0].get("defs"), ptog[i].get("defs")))
             if alone != together[i]:
-                ctx.violation({"stream": "history", "calls": c["calls"][:i + 1]},
+                ctx.violation(sub,
                               "call %d (%s) returns different bits after %d earlier calls in the same process than "
                               "in a fresh process" % (i, k["params"]["m"], i))
                 stats["history_violations"] = stats.get("history_violations", 0) + 1
@@ -1243,7 +1508,8 @@ def run_translator(ctx, result):
         result["error"] = str(ex)[-1500:]
 
 
-STATE_KINDS = {"static-local", "static-member", "global-mutable", "rand", "rng-object", "mutable-member", "write"}
+STATE_KINDS = {"static-local", "static-member", "global-mutable", "rand", "rng-object", "mutable-member", "write",
+               "rand-user", "logger-read"}
 
 
 def check_inventory(ctx, tres):
@@ -1313,6 +1579,13 @@ def generate(rng, b):
         for k in ["perm", "rot"] + (["trans", "combo"] if trans_ok else []) + (["scale"] if scale_ok else []):
             combos.append((m, k))
     i = 0
+    # the scale sweep: every scale-equivariant method at c = 2^e, e over many decades in both directions
+    for m in DET_METHODS:
+        if METHODS[m][2]:
+            for e in (-40, -32, -24, -16, 16, 24, 32, 40):
+                c = gen_meta_case(rng, m, "scale", base=0)
+                c["tr"]["c"] = 2.0 ** e
+                meta.append(c)
     while len(meta) < b["meta"]:
         if i < len(combos):
             meta.append(gen_meta_case(rng, combos[i][0], combos[i][1]))
@@ -1362,8 +1635,16 @@ def run(ctx):
         except vlib.BuildError as ex:
             builds["st_error"] = str(ex)
 
+    def build_meth():
+        try:
+            builds["meth"] = ctx.cpp("harness/c12_meth.cpp", name="c12_meth", sanitize=False, extra=emb_flags(ctx))
+        except vlib.BuildError as ex:
+            builds["meth_error"] = str(ex)
+
     tb = threading.Thread(target=build_emb)
     tb.start()
+    tx = threading.Thread(target=build_meth)
+    tx.start()
     ts_ = threading.Thread(target=build_stages)
     ts_.start()
     def build_model():
@@ -1383,6 +1664,7 @@ def run(ctx):
     t_extract = ctx.elapsed()
     ts_.join()
     tb.join()
+    tx.join()
     t_cpp = ctx.elapsed()
     th.join()
     phase_times = {"coq": round(t_coq, 1), "extract_done_at": round(builds.get("t_model", 0), 1),
@@ -1390,11 +1672,12 @@ def run(ctx):
     if "model_error" in builds:
         raise vlib.BuildError(builds["model_error"])
     mexe = builds["model"]
-    for k in ("emb_error", "st_error"):
+    for k in ("emb_error", "st_error", "meth_error"):
         if k in builds:
             raise vlib.BuildError(builds[k])
     eexe = builds["emb"]
     exe = builds["st"]
+    xexe = builds["meth"]
     inv_ok = check_inventory(ctx, tres)
     if not ctx.quick and "error" not in tres:
         # the translator must see a seeded static / srand in a scratch copy of the headers
@@ -1414,6 +1697,7 @@ def run(ctx):
     exact, meta, history, assembly, nbr = generate(rng, b)
     n = 0
     n += eval_exact(ctx, exe, mexe, cex + exact, stats)
+    n += eval_methods(ctx, xexe, mexe, cex + exact, stats)
     n += eval_assembly(ctx, exe, mexe, cas + assembly, stats)
     t_exact = ctx.elapsed()
     n += eval_meta(ctx, eexe, cme + meta, stats, hist)
@@ -1433,6 +1717,8 @@ def run(ctx):
         e2, m2, h2, a2, n2 = generate(rng, sb)
         n += eval_exact(ctx, exe, mexe, e2, stats)
         if not ctx.has_violation():
+            n += eval_methods(ctx, xexe, mexe, e2, stats)
+        if not ctx.has_violation():
             n += eval_assembly(ctx, exe, mexe, a2, stats)
             assembly += a2
         if not ctx.has_violation():
@@ -1449,6 +1735,17 @@ def run(ctx):
         key = "exact/" + c["tr"]["kind"]
         hist[key] = hist.get(key, 0) + 1
         hist["exact-data/" + c["data"]] = hist.get("exact-data/" + c["data"], 0) + 1
+        be = c.get("base_exp", 0)
+        key = "exact-base/" + ("2^0" if be == 0 else ("2^-60..-20" if be <= -20 else ("2^20..60" if be >= 20 else "2^-19..19")))
+        hist[key] = hist.get(key, 0) + 1
+    for c in meta:
+        be = c.get("base_exp", 0)
+        key = "meta-base/" + ("2^0" if be == 0 else ("2^-40..-20" if be < 0 else "2^20..40"))
+        hist[key] = hist.get(key, 0) + 1
+        if c["tr"]["kind"] == "scale":
+            e = math.log2(abs(c["tr"]["c"]))
+            key = "meta-scale/" + ("c<2^-20" if e < -20 else ("c>2^20" if e > 20 else "2^-20..20"))
+            hist[key] = hist.get(key, 0) + 1
     distinct = set()
     for c in exact:
         tr = c["tr"]
@@ -1500,6 +1797,9 @@ def replay(ctx, case):
         mexe = ctx.extract()
         if s == "exact":
             eval_exact(ctx, exe, mexe, [case_from_json(case)], stats)
+            if "Tiso" in case:
+                xexe = ctx.cpp("harness/c12_meth.cpp", name="c12_meth", sanitize=False, extra=emb_flags(ctx))
+                eval_methods(ctx, xexe, mexe, [case_from_json(case)], stats)
         else:
             eval_assembly(ctx, exe, mexe, [case_from_json(case)], stats)
     elif s in ("meta", "history", "nbr"):
